@@ -8,6 +8,7 @@ import CM.Driver.OpsDiff
 import CM.Driver.OpsC19
 import CM.Driver.OpsDeps
 import CM.Driver.OpsArgs
+import CM.Driver.OpsPrec
 open Lean
 namespace CM.Driver
 
@@ -72,6 +73,8 @@ def dispatch (j : Json) : Except String Json := do
   | "cfg_build" => opCfgBuild j
   | "replace_args" => opReplaceArgs j
   | "add_arg" => opAddArg j
+  | "prec" => opPrec j
+  | "prec_walrus" => opPrecWalrus j
   | _ => .error s!"bad-op: unknown op {op}"
 
 end CM.Driver
